@@ -46,7 +46,7 @@ inductive SData
   | name (n : Name)                       -- NS, CNAME, PTR, DNAME
   | mx (pref : Nat) (n : Name)
   | soa (mname rname : Name) (tail : Bytes)
-  | opaque (b : Bytes)
+  | raw (b : Bytes)
 deriving Repr, DecidableEq
 
 structure SRec where
@@ -76,7 +76,7 @@ def SData.legal (t : Nat) : SData → Bool
   | .name n => (t == tNS || t == tCNAME || t == tPTR || t == tDNAM) && legalName n
   | .mx p n => t == tMX && decide (p < 65536) && legalName n
   | .soa m r tail => t == tSOA && legalName m && legalName r && tail.length == 20
-  | .opaque b => !(t == tA || t == tAAAA || t == tNS || t == tCNAME || t == tPTR || t == tDNAM || t == tMX || t == tSOA)
+  | .raw b => !(t == tA || t == tAAAA || t == tNS || t == tCNAME || t == tPTR || t == tDNAM || t == tMX || t == tSOA)
                  && decide (b.length < 65536)
 
 def SRec.legal (r : SRec) : Bool :=
@@ -92,7 +92,7 @@ def SData.wire : SData → Bytes
   | .name n => wireName n
   | .mx p n => be16 p ++ wireName n
   | .soa m r tail => wireName m ++ wireName r ++ tail
-  | .opaque b => b
+  | .raw b => b
 
 /-- reference encoding of a resource record without compression (RFC 1035 §3.2.1) -/
 def SRec.wire (r : SRec) : Bytes :=
@@ -117,7 +117,7 @@ def SRec.view (r : SRec) : Resource :=
   | .name n => ⟨textOf r.owner, r.type, r.cls, r.ttl, 0, .str (textOf n)⟩
   | .mx p n => ⟨textOf r.owner, r.type, r.cls, r.ttl, p, .str (textOf n)⟩
   | .soa m rn tail => ⟨textOf r.owner, r.type, r.cls, r.ttl, 0, .str (wireName m ++ wireName rn ++ tail)⟩
-  | .opaque b => ⟨textOf r.owner, r.type, r.cls, r.ttl, 0, .str b⟩
+  | .raw b => ⟨textOf r.owner, r.type, r.cls, r.ttl, 0, .str b⟩
 
 def SQuery.view (q : SQuery) : Query := ⟨textOf q.name, q.type, q.cls⟩
 
@@ -130,7 +130,7 @@ def SRec.toNew (r : SRec) (addrText : Bytes := []) : NewRec :=
   | .name n => ⟨textOf r.owner, r.type, r.cls, r.ttl, 0, textOf n, none⟩
   | .mx p n => ⟨textOf r.owner, r.type, r.cls, r.ttl, p, textOf n, none⟩
   | .soa m rn tail => ⟨textOf r.owner, r.type, r.cls, r.ttl, 0, wireName m ++ wireName rn ++ tail, none⟩
-  | .opaque b => ⟨textOf r.owner, r.type, r.cls, r.ttl, 0, b, none⟩
+  | .raw b => ⟨textOf r.owner, r.type, r.cls, r.ttl, 0, b, none⟩
 
 def SQuery.toNew (q : SQuery) : Query := ⟨textOf q.name, q.type, q.cls⟩
 
@@ -171,7 +171,7 @@ def specOfNew (r : NewRec) : Option SRec :=
         | some (rn, tail) => some (.soa m rn tail)
         | none => none
       | none => none
-    else some (.opaque r.data)
+    else some (.raw r.data)
   match data with
   | some d => let s : SRec := ⟨owner, r.type, r.cls, r.ttl, d⟩; if s.legal then some s else none
   | none => none
